@@ -13,7 +13,7 @@ ASSUMPTIONS = [
     "logging disabled",
 ]
 BOUNDS = {
-    "quick": "structures: single, unary, pair, pair+isolated, chain-3, triangle (scopes in lexical, reversed and mixed order), pair+unary, pair with variable cost; domain size 2; min and max; all start orders and FIFO interleavings",
+    "quick": "structures: single, unary, pair, pair+isolated, chain-3, triangle (scopes in lexical, reversed and mixed order), pair+unary, chain-3 with a unary constraint on the root, pair with variable cost; domain size 2; min and max; all start orders and FIFO interleavings",
     "thorough": "quick + star-3, two disconnected pairs, ternary, ternary+binary, chain-3 with variable costs, pair with domain 3 (all schedules), chain-3 with one domain of size 3 (canonical schedule), str-valued domains",
 }
 OUTSIDE = "more than 4 variables, domains larger than 3, arity above 3, float-valued tables, infinite costs"
@@ -22,7 +22,7 @@ CAP_S = {"quick": 900, "thorough": 5400}
 
 def jobs(tier):
     out = []
-    quick = ["single", "unary", "pair", "pair_iso", "chain3", "triangle", "pair_unary", "pair_vcost", "single_vcost",
+    quick = ["single", "unary", "pair", "pair_iso", "chain3", "triangle", "pair_unary", "chain3_umid", "pair_vcost", "single_vcost",
              "chain3_rev", "triangle_rev", "triangle_mix"]
     for s in quick:
         for mode in ("min", "max"):
